@@ -408,6 +408,11 @@ func wireVarint(c *Ctx, v uint64, suf []byte) {
 }
 
 func wireCVarint(c *Ctx, in []byte) {
+	defer func() {
+		if r := recover(); r != nil {
+			c.PropFail("C02", "ConsumeVarint panicked", HexB(in))
+		}
+	}()
 	g, n := protowire.ConsumeVarint(in)
 	if e, bad := errOrN(n); bad {
 		wireCase(c, "cvarint", []string{HexB(in)}, []string{e})
@@ -441,6 +446,11 @@ func wireCTag(c *Ctx, in []byte) {
 }
 
 func wireCBytes(c *Ctx, in []byte) {
+	defer func() {
+		if r := recover(); r != nil {
+			c.PropFail("C02", "ConsumeBytes panicked", HexB(in))
+		}
+	}()
 	g, n := protowire.ConsumeBytes(in)
 	if e, bad := errOrN(n); bad {
 		wireCase(c, "cbytes", []string{HexB(in)}, []string{e})
